@@ -430,9 +430,10 @@ Section Frame.
     intros fp tab st o Hstar. unfold rewrite_all.
     assert (H : forall ps acc, (forall p, In p ps -> In p (catalog_paths tab (type_of o))) ->
                  obj_frame fp (heads tab) (snd acc)
-                 (snd (fold_left (fun (acc : option obj * obj) p => rewrite_templates tx (fst acc) (snd acc) p) ps acc))).
+                 (snd (fold_left (fun (acc : option obj * obj) p => rewrite_path tx (fst acc) (snd acc) p) ps acc))).
     { induction ps as [|p ps IH]; intros acc Hin; [apply obj_frame_refl|]. cbn [fold_left].
       eapply obj_frame_trans; [|apply IH; intros q Hq; apply Hin; now right].
+      rewrite rewrite_path_snd.
       apply (rewrite_templates_frame fp tab (type_of o)); [apply Hin; now left | apply Hstar, Hin; now left]. }
     specialize (H (catalog_paths tab (type_of o)) (snd st, o) (fun p Hp => Hp)).
     destruct (fold_left _ (catalog_paths tab (type_of o)) (snd st, o)) as [loc' o']. exact H.
@@ -554,9 +555,9 @@ Section Parametric13_3.
   Proof.
     intros tab st o. unfold rewrite_all.
     assert (H : forall ps acc, txr_obj tx (snd acc)
-                 (snd (fold_left (fun (acc : option obj * obj) p => rewrite_templates tx (fst acc) (snd acc) p) ps acc))).
+                 (snd (fold_left (fun (acc : option obj * obj) p => rewrite_path tx (fst acc) (snd acc) p) ps acc))).
     { induction ps as [|p ps IH]; intro acc; [apply txr_obj_refl|]. cbn [fold_left].
-      eapply txr_obj_trans; [|apply IH]. unfold rewrite_templates.
+      eapply txr_obj_trans; [|apply IH]. rewrite rewrite_path_snd. unfold rewrite_templates.
       destruct (parse_path _) as [steps|]; [|apply txr_obj_refl].
       match goal with |- context [visit tx steps ?l0 ?j0] =>
         pose proof (visit_txr tx steps l0 j0) as Hv; destruct (visit tx steps l0 j0) as [loc' j] end.
